@@ -1,4 +1,4 @@
-import NitroVerif.Lemmas.SkipConcStep
+import NitroVerif.Lemmas.SkipConcStart
 /-!
   System level: the invariant `Inv` holds initially for any number of threads and is preserved by every
   action (`start t op`, `step t`) of every thread; the heap evolves by `Ext` along every run.
